@@ -236,3 +236,84 @@ def clash_source(t):
 
 for _name, _tpl in list(T.items()):
     _tpl.modules["tq.zclash"] = {"a": clash_source(_tpl)}
+
+# ---------------------------------------------------------------- T14: package boundary. ta (NOT accepted) > ta.inner (accepted) > ta.inner.leaf ;
+# ta.outer (not accepted); tq2 (accepted; its name extends the name of tq); tx.lib defines a data function in a non-accepted module
+_T14_LEAF = '''
+V = 0
+U = 0
+
+
+def compute():
+    tick.hit("compute")
+    return ("c", V)
+
+
+def other():
+    tick.hit("other")
+    return ("o", U)
+'''
+_T14_DEEP = '''
+D = 0
+
+
+def deep():
+    tick.hit("deep")
+    return ("d", D)
+'''
+_T14_OUTER = '''
+Z = 0
+
+
+def ext():
+    return ("z", Z)
+'''
+_T14_HELP = '''
+W = 0
+
+
+def h():
+    tick.hit("h")
+    return ("w", W)
+'''
+_T14_XLIB = '''
+@dds.data_function("/t14/x")
+def xf():
+    tick.hit("xf")
+    return ("xf", 1)
+'''
+_T14_M1 = '''
+import ta.inner.leaf
+from ta.inner import leaf as lf
+from ta.inner.sub.deeper.deepest import deep as dp
+import ta.outer
+import tq2.helpers as hp
+
+
+@dds.data_function("/t14/g")
+def g():
+    tick.hit("g")
+    return ("g", lf.other(), dp())
+
+
+@dds.data_function("/t14/f")
+def f():
+    tick.hit("f")
+    return ("f", ta.inner.leaf.compute(), g(), hp.h(), ta.outer.ext())
+'''
+_t(
+    "T14",
+    [PKG, ("tq2", {"a": "# accepted package whose name extends 'tq'\\n"}), ("tq2.helpers", {"a": HEAD + _T14_HELP, "b": HEAD + _T14_HELP.replace('("w", W)', '("w2", W)')}),
+     ("ta", {"a": "# NOT accepted\\n"}), ("ta.inner", {"a": "# accepted sub-package of a non-accepted package\\n"}),
+     ("ta.inner.leaf", {"a": HEAD + _T14_LEAF, "b": HEAD + _T14_LEAF.replace('("c", V)', '("c2", V)')}),
+     ("ta.inner.sub", {"a": "#\\n"}), ("ta.inner.sub.deeper", {"a": "#\\n"}),
+     ("ta.inner.sub.deeper.deepest", {"a": HEAD + _T14_DEEP, "b": HEAD + _T14_DEEP.replace('("d", D)', '("d2", D)')}),
+     ("ta.outer", {"a": HEAD + _T14_OUTER, "b": HEAD + _T14_OUTER.replace('("z", Z)', '("z2", Z)')}),
+     ("tx", {"a": "#\\n"}), ("tx.lib", {"a": HEAD + _T14_XLIB}),
+     ("tq.m1", {"a": HEAD + _T14_M1})],
+    leaves=[("ta.inner.leaf", "V", "int", True), ("ta.inner.leaf", "U", "int", True), ("tq2.helpers", "W", "int", True), ("ta.inner.sub.deeper.deepest", "D", "int", True), ("ta.outer", "Z", "int", False)],
+    entry=("tq.m1", "f"),
+    kept=["/t14/g", "/t14/f"],
+    accepted=("tq2", "ta.inner", "tq"),
+)
+T["T14"].modules["tq.zclash"] = {"a": clash_source(T["T14"])}
